@@ -178,6 +178,12 @@ class ManifestMachine(FormatMachine):
             return "accepted-unspec"
         self.count("C12", ["ok", self.FORMAT, self.add_key(op, payload)])
         d = first_diff(arg, got)
+        if d and self.cfg.get("focus") not in (None, "C12", "C03"):
+            # another property's run: the effect of an add is not its business - follow the observation and go on
+            # (cutting the run here would hide what THIS run is looking for further down the history)
+            s.model["payload"] = got
+            CTX.probe("mf.add_effect_differs_in_foreign_run")
+            return "ok-resynced"
         if d:
             # C12 and C03 both quantify over histories of add calls and compare with what the calls specified; the run's
             # focus decides which check reports it, so that neither loses the detection
